@@ -68,12 +68,14 @@ CLAIMED = {
         text="For the $tb random handles (a verbatim copy of simulator/src/random_table.rs compiled with the "
              "harness as a child module): every range draw has the requested width/signedness and lies within its "
              "bounds, interpreted at that width and signedness, for ALL min/max/sampler results at each width "
-             "1..64; the sampler is never called with an empty range; a handle's seed depends only on (base seed, "
-             "handle name) regardless of creation order.",
+             "listed (quick: 8 widths, thorough: 1..64); the sampler is never called with an empty range; a handle's "
+             "seed is FNV-1a of (base seed bytes ++ handle name) for four fixed base seeds and every name of up to two "
+             "bytes.",
         note="Outside the claim: worker-pool dispatch order, captured output and verdict stability (threads and "
              "processes). rand/rand_pcg are contract-only stand-ins (random_range returns an arbitrary value of "
-             "the requested range and panics on an empty one); the handle-name lookup returns an arbitrary short "
-             "string.",
+             "the requested range and panics on an empty one); the generator lookup (thread-local HashMap) is "
+             "bypassed, so the per-handle generator table (get_seed_handle/seed_handle/reset) is outside the claim; a "
+             "symbolic base seed does not finish in the SAT back end (ten chained 64-bit constant multiplications).",
         design_ref="DESIGN.md 2 (C32)"),
     "C21": dict(
         level="model_checking", engine="kani-cbmc", technique=KANI,
@@ -87,4 +89,23 @@ CLAIMED = {
              "exhaustive enumeration), and rewrite/techmap on netlists -- the `aig` cargo feature does not compile "
              "on the pinned tree (see DESIGN.md known findings).",
         design_ref="DESIGN.md 2 (C21)"),
+    "C19": dict(
+        level="translation_validation", engine="tv-miter",
+        technique="translation validation: the real synthesizer's netlists vs word-level RTL terms and vs each other, "
+                  "SAT/SMT miters decided by z3 for all inputs and all states, native replay of counterexamples",
+        text="Per corpus design the real parser, analyzer and synthesizer are run and z3 decides (1) that the gate "
+             "netlist (cells, flip-flops with reset value/edge, inferred RAM blocks) computes, for EVERY input and EVERY "
+             "state, the same outputs and next state as an independent word-level statement of the RTL semantics "
+             "(one-step induction => input sequences of any length; bounded unrolling from reset otherwise), and (2) "
+             "that every cell library x RAM-inference threshold x restructure setting yields an equivalent netlist. A "
+             "model is replayed on the repository's interpreter and the freshly synthesized netlist before it is "
+             "reported. The quantifier over programs is the corpus (about 220 files, ~190 modules conclusive), not all "
+             "designs.",
+        note="Outside the claim: designs outside the RTL-term subset (module instances, functions, struct/array "
+             "literals, several clocks, block-local temporaries, >4096 state bits) are only covered by the "
+             "configuration miter; 4-state behaviour; division by zero and out-of-range dynamic indices are assumed "
+             "away. Trusted: the CellKind truth table and FF/RAM step semantics in tv/miter.py, the RTL term builder "
+             "tv/tvdump/src/rtl.rs (validated on the unchanged tree by agreeing with the netlists of ~190 modules and "
+             "by native replay), z3.",
+        design_ref="DESIGN.md 2 (C19)"),
 }
